@@ -18,7 +18,7 @@ type regime struct {
 	seeds    [][]int
 	depth    int
 	dups     []int
-	spread   int // 0 compact alphabet, 1 spread, 2 compact scaled by 0.1
+	spread   int // 0 compact alphabet, 1 spread, 2 compact scaled by 0.1, 3 the 36-point grid
 }
 
 func seedOrders(n int) [][]int {
@@ -67,7 +67,7 @@ func main() {
 		return
 	}
 	r := report.New("C11", tier, "model_checking")
-	r.Rule = "E2: breadth-first search over the real *Rtree: transitions Insert(o) (o absent, or present once for the two designated duplicate objects) and Delete(o) (every o, present or absent) on a deep clone; states deduplicated by a canonical serialisation of the whole node structure (entry order, levels, leaf flags, boxes, object ids, parent-link flags), height, size and the model multiset. Regime (i) from the empty tree to closure / depth bound; regime (ii) neighbourhoods of height-3 seed trees. Oracle in every distinct state: Size, balance, Depth, exact envelopes, fan-out, SearchIntersect for 104 query boxes vs brute force. Non-trivial = states with height >= 2."
+	r.Rule = "E2: breadth-first search over the real *Rtree: transitions Insert(o) (o absent, or present once for the two designated duplicate objects) and Delete(o) (every o, present or absent) on a deep clone; states deduplicated by a canonical serialisation of the whole node structure (entry order, levels, leaf flags, boxes, object ids, parent-link flags), height, size and the model multiset. Regime (i) from the empty tree to closure / depth bound; regime (ii) neighbourhoods of height-3 seed trees. Regime (iii): every operation sequence of length <= 7 (thorough 8) over Insert/Delete of 4 objects (one insertable twice) and SearchIntersect of 3 fixed boxes *as operations*, explored as a tree without merging states, each query compared with brute force at that point of the history (catches state the key cannot see: caches, aliasing). Oracle in every distinct state: Size, balance, Depth, exact envelopes, fan-out, SearchIntersect for 104 query boxes vs brute force. Non-trivial = states with height >= 2."
 	r.Assumptions = []string{"object alphabet: 16 boxes/points on the {0..3}^2 grid (coincident, nested, degenerate, value-typed); longer histories and other coordinates are outside the bound"}
 	regs := []regime{
 		{"full(2,4)x7", 7, 2, 4, nil, 200, nil, 0},
@@ -78,6 +78,8 @@ func main() {
 		{"seeds(2,4)x13", 13, 2, 4, seedOrders(13), 5, nil, 0},
 		{"spread-seeds(2,4)x13", 13, 2, 4, seedOrders(13), 4, nil, 1},
 		{"spread-full(2,4)x6", 6, 2, 4, nil, 200, nil, 1},
+		{"grid-seeds(2,4)x36", 36, 2, 4, rtreemc.GridSeeds(), 2, nil, 3},
+		{"grid-seeds(2,5)x36", 36, 2, 5, rtreemc.GridSeeds(), 1, nil, 3},
 	}
 	if tier == "thorough" {
 		regs = []regime{
@@ -91,6 +93,9 @@ func main() {
 			{"spread-seeds(3,6)x16", 16, 3, 6, seedOrders(16), 3, nil, 1},
 			{"seeds(2,5)x16", 16, 2, 5, seedOrders(16), 4, nil, 0},
 			{"seeds(3,6)x16", 16, 3, 6, seedOrders(16), 4, nil, 0},
+			{"grid-seeds(2,4)x36", 36, 2, 4, rtreemc.GridSeeds(), 3, nil, 3},
+			{"grid-seeds(2,5)x36", 36, 2, 5, rtreemc.GridSeeds(), 3, nil, 3},
+			{"grid-seeds(3,6)x36", 36, 3, 6, rtreemc.GridSeeds(), 2, nil, 3},
 			{"full(4,8)x9", 9, 4, 8, nil, 12, []int{0}, 0},
 			{"full(3,6)x8", 8, 3, 6, nil, 20, []int{0}, 0},
 			{"full(3,6)x9", 9, 3, 6, nil, 15, []int{0}, 0},
@@ -102,11 +107,15 @@ func main() {
 			r.Cap("wall budget expired before regime " + g.name)
 			break
 		}
-		u := rtreemc.NewUniverse(g.nobj, g.min, g.max, g.dups...)
-		if g.spread == 1 {
+		var u *rtreemc.Universe
+		if g.spread == 0 {
+			u = rtreemc.NewUniverse(g.nobj, g.min, g.max, g.dups...)
+		} else if g.spread == 1 {
 			u = rtreemc.NewSpreadUniverse(g.nobj, g.min, g.max, g.dups...)
 		} else if g.spread == 2 {
 			u = rtreemc.NewScaledUniverse(g.nobj, g.min, g.max, g.dups...)
+		} else if g.spread == 3 {
+			u = rtreemc.NewGridUniverse(g.min, g.max)
 		}
 		e := &rtreemc.Explorer{U: u, R: r, Seeds: g.seeds, CheckState: rtreemc.CheckC11}
 		t0 := time.Now()
@@ -128,7 +137,24 @@ func main() {
 			break
 		}
 	}
-	r.Set("regimes", details)
 	r.AddEvals(r.States * 104)
+	if r.NViolationSigs() == 0 && !r.Expired() {
+		d := 7
+		if tier == "thorough" {
+			d = 8
+		}
+		t0 := time.Now()
+		e := &rtreemc.Explorer{U: rtreemc.NewUniverse(4, 2, 4, 0), R: r}
+		ss := e.Sequences(d, false)
+		r.AddStates(ss.Nodes)
+		r.AddTransitions(ss.Nodes)
+		r.Set("sequence_nodes", ss.Nodes)
+		r.Set("sequence_queries", ss.Queries)
+		fmt.Printf("  sequences(2,4)x4+dup depth %d: nodes=%d queries=%d %.0fs\n", d, ss.Nodes, ss.Queries, time.Since(t0).Seconds())
+		if r.Expired() {
+			r.Cap("wall budget expired in the sequence regime")
+		}
+	}
+	r.Set("regimes", details)
 	r.Finish()
 }
